@@ -88,6 +88,7 @@ def decode(data: bytes) -> dict:
     if d.p(0.3):
         case["extra"] = {"foo": d.i(0, 9)}
     case["probe_private"] = d.p(0.5)
+    case["log_debug"] = d.p(0.12)
     if d.p(0.3):
         # another client is already connected (to this pool, or to another pool's server in the same process): idle, or in the
         # middle of a command whose method waits
@@ -298,7 +299,7 @@ class C16Engine(Engine):
             s.stop()
             await settle()
 
-        _, out, err, error = run_in_fresh_loop(main)
+        _, out, err, error = run_in_fresh_loop(main, debug_log=bool(case.get("log_debug")))
         if error and error.startswith("LIB:"):
             fail("library/undocumented-exception-escaped", error[4:])
             error = None
